@@ -47,6 +47,8 @@ class ScriptNet(nn.Module):
         self.NN = nn.Sequential()   # `save()` describes networks through their `.NN` attribute (as FCNN has)
         # a buffer (like BatchNorm's running statistics): the parameter value at the most recent forward pass
         self.register_buffer('seen', torch.tensor(float(theta0), dtype=torch.float64))
+        # a frozen parameter (requires_grad=False, as in fine-tuning with frozen layers) that the harness changes between epochs
+        self.aux = nn.Parameter(torch.tensor(0.0, dtype=torch.float64), requires_grad=False)
 
     def forward(self, x):
         with torch.no_grad():
@@ -71,8 +73,12 @@ class World:
 CURRENT_WORLD = [None]   # used when `load()` re-creates the optimiser from its class alone
 
 
+def _first_trainable(opt):
+    return next(p for g in opt.param_groups for p in g['params'] if p.requires_grad and p.dim() > 0)
+
+
 def _seen_grad(opt):
-    g = opt.param_groups[0]['params'][0].grad
+    g = _first_trainable(opt).grad
     return 0 if g is None else int(round(g.detach().reshape(-1)[0].item()))
 
 
@@ -94,9 +100,10 @@ class PlainOpt(torch.optim.Optimizer):
         with torch.no_grad():
             for g in self.param_groups:
                 for p in g['params']:
-                    p.add_(d)
+                    if p.requires_grad:
+                        p.add_(d)
         self.world.steps += 1
-        th = int(round(self.param_groups[0]['params'][0].detach()[0].item()))
+        th = int(round(_first_trainable(self).detach()[0].item()))
         self.world.events.append(f'Splain:{k}:{th}')
 
 
@@ -119,10 +126,11 @@ class ClosureOpt(torch.optim.Optimizer):
             with torch.no_grad():
                 for g in self.param_groups:
                     for p in g['params']:
-                        p.add_(sh)
+                        if p.requires_grad:
+                            p.add_(sh)
         self.world.grads.append(_seen_grad(self))
         self.world.steps += 1
-        th = int(round(self.param_groups[0]['params'][0].detach()[0].item()))
+        th = int(round(_first_trainable(self).detach()[0].item()))
         self.world.events.append(f'Sclosure:{k}:{th}')
         return loss
 
@@ -165,7 +173,7 @@ class Run:
     """one scripted solver; `kind` in {'1d','2d','bundle','spherical','generic'}"""
 
     def __init__(self, theta0, opt, n_train, n_valid, n_metrics, kind='1d', n_funcs=1, shared=False, n_points=3,
-                 eq_param_index=(), n_theta=0, vary_points=False):
+                 eq_param_index=(), n_theta=0, vary_points=False, loss_scale=1.0):
         from neurodiffeq import solvers as S
         from neurodiffeq.conditions import NoCondition
         self.world = World()
@@ -180,6 +188,7 @@ class Run:
             self.nets = [ScriptNet(theta0) for _ in range(n_funcs)]
         self.loss_id = 0
         self.eq_calls = []
+        self.scale = float(loss_scale)      # best-model tracking only compares losses: it must not depend on their scale
 
         def eqs(*args):
             # canonical record of what the user's equations received: per argument (kind, value of row 0)
@@ -198,7 +207,7 @@ class Run:
                 val = w.overrides.get((train, idx), loss_formula(loss_id, th, train, idx))
                 # value `val`, gradient w.r.t. the (first) parameter exactly grad_formula(...): funcs[0] is 0*x + w row-wise
                 probe = funcs[0].reshape(-1)[0]
-                return (residuals * 0).sum() + sum((f * 0).sum() for f in funcs) + float(val) \
+                return (residuals * 0).sum() + sum((f * 0).sum() for f in funcs) + float(val) * self.scale \
                     + float(grad_formula(loss_id, th, train, idx)) * (probe - probe.detach())
             loss_fn.loss_id = loss_id
             return loss_fn
@@ -210,7 +219,10 @@ class Run:
                 train, idx = decode_idx(coords[0])
                 return torch.tensor(float(metric_formula(m, self.nets[0].theta(), train, idx)))
             return metric
-        metrics = {f'm{m}': make_metric(m) for m in range(n_metrics)}
+        # registered in non-alphabetical order; plus a metric that hands back a LIVE tensor (a view of the trained parameter, as a
+        # user monitoring a learnable coefficient would): the recorded value is what the function returned when it was called
+        metrics = {f'm{m}': make_metric(m) for m in reversed(range(n_metrics))}
+        metrics['live'] = lambda *args: self.nets[0].w[0]
         params = list({id(p): p for n in self.nets for p in n.parameters()}.values())
         self.make_opt = lambda k: (PlainOpt if k == 'plain' else ClosureOpt)(params, w)
         common = dict(conditions=[NoCondition() for _ in range(n_funcs)], nets=self.nets,
@@ -238,7 +250,7 @@ class Run:
             if not w.addl:
                 return 0
             train, idx = decode_idx(coords[0])
-            return float(addl_formula(self.nets[0].theta(), train, idx))
+            return float(addl_formula(self.nets[0].theta(), train, idx)) * self.scale
         self.solver.additional_loss = types.MethodType(additional_loss, self.solver)
         self.sched = {}
         self.call = 0
@@ -246,19 +258,25 @@ class Run:
         self.n_metrics = n_metrics
         self.sols = []
         self.best_obs = []      # per epoch: (best w, best 'seen' buffer, optimiser kind, n_batches_valid)
+        self.live_obs = []      # per epoch: the 'live' metric series (train, valid)
+        self.aux_obs = []       # per epoch: (frozen parameter inside best_nets, its value when that snapshot was taken)
+        self._aux_bumps = 0
+        self._aux_at_snapshot = None
+        self._last_best = None
 
     # ---- canonical dumps ------------------------------------------------------------------------
     def dump(self):
         s = self.solver
         ints = lambda l: '[' + ','.join(str(int(round(v))) for v in l) + ']'
+        lints = lambda l: '[' + ','.join(str(int(round(v / self.scale))) for v in l) + ']'
         opt = 'closure' if isinstance(s.optimizer, ClosureOpt) else 'plain'
         h = s.metrics_history
         tm = '|'.join(ints(h[f'train__m{m}']) for m in range(self.n_metrics))
         vm = '|'.join(ints(h[f'valid__m{m}']) for m in range(self.n_metrics))
-        lowest = 'None' if s.lowest_loss is None else str(int(round(s.lowest_loss)))
+        lowest = 'None' if s.lowest_loss is None else str(int(round(s.lowest_loss / self.scale)))
         best = 'None' if s.best_nets is None else str(s.best_nets[0].theta())
         return (f'theta={self.nets[0].theta()} opt={opt} loss={getattr(s.loss_fn, "loss_id", -1)} nT={s.n_batches["train"]} '
-                f'nV={s.n_batches["valid"]} train={ints(h["train_loss"])} valid={ints(h["valid_loss"])} tm={tm} vm={vm} '
+                f'nV={s.n_batches["valid"]} train={lints(h["train_loss"])} valid={lints(h["valid_loss"])} tm={tm} vm={vm} '
                 f'lowest={lowest} best={best} local={s.local_epoch} max={s._max_local_epoch} '
                 f'stop={"true" if s._stop_training else "false"} td={s.generator["train"].generator.count} '
                 f'vd={s.generator["valid"].generator.count} steps={self.world.steps}')
@@ -289,6 +307,16 @@ class Run:
             def __call__(cb, solver):
                 w.events.append(f'C{call}:{solver.local_epoch}')
                 run.out.append('E ' + run.dump())
+                run.live_obs.append((call, solver.local_epoch, [list(solver.metrics_history.get('train__live', [])), list(solver.metrics_history.get('valid__live', []))]))
+                if solver.best_nets is not None:
+                    if solver.best_nets is not run._last_best:       # a new snapshot was taken during this epoch
+                        run._last_best, run._aux_at_snapshot = solver.best_nets, run._aux_bumps
+                    run.aux_obs.append((int(round(solver.best_nets[0].aux.item())), run._aux_at_snapshot, call, solver.local_epoch))
+                # "unfreeze and train" the frozen parameters between epochs (outside the optimiser)
+                with torch.no_grad():
+                    for n_ in {id(n): n for n in solver.nets}.values():
+                        n_.aux.add_(1.0)
+                run._aux_bumps += 1
                 if solver.best_nets is not None:
                     b = solver.best_nets[0]
                     run.best_obs.append((b.theta(), int(round(b.seen.item())), 'closure' if isinstance(solver.optimizer, ClosureOpt) else 'plain',
